@@ -8,6 +8,7 @@
 (*                 a few by-name flags.                                            *)
 (*  Mode "vcs":   VCS overrides, --clean, context control, presets and tiers.      *)
 EXTENDS ZervModel, Json
+R == INSTANCE Render
 
 CONSTANTS Mode, Emit, OpChoices     \* OpChoices: subset of {0,1,2,3}: none, override, bump, both
 
@@ -114,7 +115,28 @@ TierOnlyFromState ==
   (pc = "walk" /\ li = 1 /\ a.schema.kind = "preset") =>
      sch = PresetSchema(a.schema.fam, a.schema.suffix, ctx.dirty, ctx.distance, v.pre.l # "none", v.post # NONE)
 
+\* ---- the whole command: final state rendered (ZervModel ; Render) -----------------
+\* concrete texts of the context tokens (the harness uses the same table)
+TokBranch(tk) == IF tk = 1 THEN <<109,97,105,110>> ELSE <<102,101,97,116,117,114,101,47,120,45,49>>     \* main, feature/x-1
+TokHash == <<97,49,98,50,99,51,100,52,101,53,102,54,48,55,49,56,50,57,51,97,52,98,53,99,54,100,55,101,56,102,57,48,49,50,51,52,53,54,55,56>>
+\* 1700000000 = 2023-11-14 22:13:20 UTC, a Tuesday, day 19675 since the epoch, 318th day of the year
+I1700 == [c |-> [day |-> 19675, y |-> 2023, m |-> 11, d |-> 14, wd |-> 1, yd |-> 318], sod |-> 80000]
+T1700 == <<49,55,48,48,48,48,48,48,48,48>>
+NoT == [s |-> 0, v |-> <<>>]
+St == [ v |-> v, distance |-> ctx.distance, dirty |-> ctx.dirty,
+        branch |-> IF ctx.branch = NONE THEN NoT ELSE [s |-> 1, v |-> TokBranch(ctx.branch)],
+        hash |-> IF ctx.hash = NONE THEN NoT ELSE [s |-> 1, v |-> TokHash],
+        custom |-> <<>>,
+        bts |-> IF ctx.ts = 1700000000 THEN I1700 ELSE R!NoInstant,
+        btsText |-> IF ctx.ts = 1700000000 THEN [s |-> 1, v |-> T1700] ELSE NoT,
+        lts |-> R!NoInstant, ltsText |-> NoT, lbranch |-> NoT, lhash |-> NoT ]
+\* the wall clock (a dirty work tree re-stamps the bumped timestamp) makes date components unpredictable
+UsesClock == ctx.ts = -2 /\ \E sec \in {"core", "extra", "build"} : \E i \in 1..Len(sch[sec]) :
+                sch[sec][i].t = "ts" \/ (sch[sec][i].t = "var" /\ sch[sec][i].v = "BumpedTimestamp")
+FinalSemVer == IF pc = "done" /\ ~UsesClock THEN R!RenderSemVer(sch, St) ELSE <<>>
+FinalPep440 == IF pc = "done" /\ ~UsesClock THEN R!RenderPep440(sch, St) ELSE <<>>
 EmitLine ==
-  (Emit /\ Done) => PrintT("REPLAY " \o ToJson([ a |-> a, err |-> err, v |-> v, ctx |-> ctx, sch |-> sch ]))
+  (Emit /\ Done) => PrintT("REPLAY " \o ToJson([ a |-> a, err |-> err, v |-> v, ctx |-> ctx, sch |-> sch,
+                                                 clock |-> (pc = "done" /\ UsesClock), semver |-> FinalSemVer, pep440 |-> FinalPep440 ]))
 ActionProps == [][HigherLevelsUnchanged /\ WalkKeepsContext]_vars
 =============================================================================
